@@ -293,17 +293,19 @@ class HDict:
 
 
 class HObj:
-    __slots__ = ('cls', 'fields', 'lazy', 'name', 'prov')
+    __slots__ = ('cls', 'fields', 'lazy', 'name', 'prov', 'maybe', 'absent')
 
-    def __init__(self, cls, fields=None, lazy=False, name='', prov='fresh'):
+    def __init__(self, cls, fields=None, lazy=False, name='', prov='fresh', maybe=()):
         self.cls = cls
         self.fields = dict(fields or {})
         self.lazy = lazy
         self.name = name
         self.prov = prov
+        self.maybe = set(maybe)     # attributes of a lazy object that may be absent
+        self.absent = set()         # ... decided absent on this path
 
     def clone(self):
-        return HObj(self.cls, self.fields, self.lazy, self.name, self.prov)
+        return HObj(self.cls, self.fields, self.lazy, self.name, self.prov, self.maybe)
 
 
 # ---------------------------------------------------------------- exceptions
